@@ -179,6 +179,16 @@ class PersLoader:
         return Stub(self.w, "o", k)
 
 
+def _importable_names(module, name):
+    """can `from <module> import <name>` be written in Python at all?"""
+    import keyword
+    try:
+        ok = lambda x: x.isidentifier() and not keyword.iskeyword(x)  # noqa: E731
+        return ok(name) and all(ok(part) for part in module.split("."))
+    except Exception:
+        return False
+
+
 class RefUnpickler(pickle._Unpickler):
     """CPython's pure-Python unpickler with inert find_class / persistent_load and a per-opcode hook."""
 
@@ -190,6 +200,8 @@ class RefUnpickler(pickle._Unpickler):
 
     def find_class(self, module, name):
         self.world.events.append(("resolve", module, name))
+        if not _importable_names(module, name):
+            self.world.flags.add("non-identifier-global")
         return self.world.global_stub(module, name)
 
     def persistent_load(self, pid):
@@ -204,12 +216,30 @@ class RefUnpickler(pickle._Unpickler):
                                  "T" if self.halted else "F")
 
 
+def _setitems_flag(self):
+    """D18 precondition: SETITEMS whose target is a stand-in object and whose keys are not pairwise
+    distinct hashable values (the decompiled `x.update({...})` hashes and merges them)"""
+    try:
+        if not (self.metastack and self.metastack[-1] and isinstance(self.metastack[-1][-1], Stub)):
+            return False
+        keys = self.stack[0::2]
+        try:
+            return len(set(keys)) < len(keys)
+        except TypeError:
+            return True
+    except Exception:
+        return False
+
+
 def _wrap(fn):
     is_build = fn is pickle._Unpickler.load_build
+    is_setitems = fn is pickle._Unpickler.load_setitems
 
     def handler(self):
         if is_build and len(self.stack) >= 2 and not isinstance(self.stack[-2], Stub):
             self.world.flags.add("build-on-plain-value")
+        if is_setitems and _setitems_flag(self):
+            self.world.flags.add("setitems-on-object")
         fn(self)
         self.trace.append(self._shape())
     return handler
@@ -538,5 +568,45 @@ def real_vm_run(data):
         return "ERR"
     try:
         return "OK " + render_val(val) + " | " + render_events(w)
+    except Exception:
+        return "RENDER-ERR"
+
+
+# ---------------------------------------------------------------- C05 layer B: exec of the decompile
+def real_py_eval(data):
+    """'OK <value> | <events>' of exec(ast.unparse(Pickled.load(data).ast)) under the inert stand-ins
+    (rendered like real_vm_run), 'ERR' when the program raises, 'NORESULT' when it binds no result,
+    'PARSE-ERR' / 'FK-ERR' / 'SKIP' when there is no decompiled program to run."""
+    from fickling.fickle import Pickled
+    try:
+        p = Pickled.load(data)
+    except Exception:
+        return "PARSE-ERR"
+    try:
+        module = p.ast
+    except RecursionError:
+        return "SKIP"
+    except Exception:
+        return "FK-ERR"
+    try:
+        src = ast.unparse(module)
+    except RecursionError:
+        return "SKIP"                # cyclic / very deep AST: no finite print-out
+    except Exception:
+        return "RENDER-ERR"
+    try:
+        ast.parse(src)
+    except SyntaxError:
+        return "SKIP"                # the decompiled text is not Python (finding D19): nothing to evaluate
+    except Exception:
+        return "SKIP"
+    rv, w, err = exec_decompiled(src)
+    if err:
+        return "SKIP" if err == "RecursionError" else "ERR"
+    if not any(isinstance(st, ast.Assign) and isinstance(st.targets[0], ast.Name)
+               and st.targets[0].id == "result" for st in module.body):
+        return "NORESULT"
+    try:
+        return "OK " + render_val(rv) + " | " + render_events(w)
     except Exception:
         return "RENDER-ERR"
